@@ -25,7 +25,10 @@ for d in sorted(glob.glob(os.path.join(ROOT, "seeded", "*", ""))):
         else:
             res.append(f"{c}: VIOLATION no-failing-input-found ({'; '.join(v.get('signatures', [])[:1])[:90]})")
     ok = conf.get("applies") and conf.get("builds") and conf.get("demo_orig_rc") == 0 and conf.get("demo_changed_rc") not in (0, None)
-    rows.append((name, files, summ, "yes (base %s)" % conf.get("base") if ok else "not confirmed", "<br>".join(res) or "not run"))
+    confirmed = "yes (base %s)" % conf.get("base") if ok else "not confirmed"
+    if m.get("superseded"):
+        confirmed += "; superseded: " + str(m["superseded"])
+    rows.append((name, files, summ, confirmed, "<br>".join(res) or "not run"))
 out = ["Six waves of fresh sub-agents (10 agents per wave, two properties each; every wave was told which sites and mechanisms",
        "the earlier ones had used and asked for different ones; `*-rev-<commit>` entries are regression seeds written from",
        "repaired defects: the reverse of the fix). `tools/seedtest.py` applies each change to a scratch worktree of",
